@@ -2,7 +2,7 @@
 
 Workload (all actions are gates released one at a time by the choice-sequence scheduler, so every
 interleaving of them is explored):
-  arrive-i   caller i (own task) calls the cached coroutine function with its key
+  arrive-i   caller i (own task; in some configurations from inside its own ctx.scope) calls the cached coroutine function with its key
   cancel-i   a canceller task cancels caller i's task
   expire     the virtual clock jumps past every existing entry's expiration
   tick-i     the virtual clock (also the loop's) advances by 0.6 of the expiration: younger entries stay valid
@@ -44,7 +44,7 @@ ASSUMPTIONS = [
     "whether a caller arriving after expiry/eviction of an in-flight entry starts a new invocation is unspecified (either is accepted)",
     "gates stand for external events; below them the asyncio ready queue is FIFO and never permuted",
 ]
-MINIMUMS = {"shared_waiters_with_cancel": 300, "expiry_in_flight": 200, "eviction_in_flight": 200, "monitor:single-flight": 1000, "monitor:delivery": 3000, "set:schedules": 1500}
+MINIMUMS = {"shared_waiters_with_cancel": 300, "expiry_in_flight": 200, "eviction_in_flight": 200, "monitor:single-flight": 1000, "monitor:delivery": 3000, "shared_cancel_with_scoped_callers": 100, "set:schedules": 1500}
 JOBS = {"quick": 4, "thorough": 16}
 LEVEL_TEXT = (
     "For every configuration of 2-3 (thorough: 2-4) callers over 1-2 keys (cancellers, expiry, limit 1/2, value/exception outcomes) the gate-release orders are explored by "
@@ -61,8 +61,9 @@ class Boom(Exception):
 
 
 def run_schedule(cfg: dict[str, Any], chooser: Chooser) -> dict[str, Any]:
-    from haiway import cache
+    from haiway import cache, ctx
 
+    scoped = set(cfg.get("scoped", ()))
     keys, cancels, expire, limit, outcome = cfg["keys"], cfg["cancels"], cfg["expire"], cfg["limit"], cfg["outcome"]
     n = len(keys)
     clock = VClock()
@@ -110,7 +111,12 @@ def run_schedule(cfg: dict[str, Any], chooser: Chooser) -> dict[str, Any]:
             c["arrived"] = len(log["actions"])
             c["inv_count_at_arrival"] = len(log["inv"])
             try:
-                c["result"] = ("value", await fetch(keys[i]))
+                if i in scoped:
+                    # the call is made from inside the caller's own scope (its task group is torn down when the caller is cancelled)
+                    async with ctx.scope(f"caller{i}"):
+                        c["result"] = ("value", await fetch(keys[i]))
+                else:
+                    c["result"] = ("value", await fetch(keys[i]))
             except asyncio.CancelledError:
                 c["result"] = ("cancelled", None)
                 raise
@@ -253,6 +259,8 @@ def judge(R: Recorder, cfg: dict[str, Any], chooser: Chooser, log: dict[str, Any
 
     nontrivial = flags["shared_cancel"] or flags["expiry_in_flight"] or flags["eviction_in_flight"]
     R.case(case, nontrivial=nontrivial)
+    if flags["shared_cancel"] and cfg.get("scoped"):
+        R.count("shared_cancel_with_scoped_callers")
     for k, v in flags.items():
         if v:
             R.count({"shared_cancel": "shared_waiters_with_cancel"}.get(k, k))
@@ -317,6 +325,8 @@ def configs(tier: str):  # noqa: ANN201
                             continue
                         for outcome in (("value", "raise") if n == 2 else ("mixed",)):
                             yield {"keys": list(keys), "cancels": list(cancels), "expire": expire, "limit": limit, "outcome": outcome}
+                            if cancels and not expire and n <= 3:
+                                yield {"keys": list(keys), "cancels": list(cancels), "expire": expire, "limit": limit, "outcome": outcome, "scoped": list(range(n))}
                         if expire and n == 3 and not cancels:
                             yield {"keys": list(keys), "cancels": [], "expire": True, "jump": False, "ticks": 2, "limit": limit, "outcome": "mixed"}
     # eviction, re-insertion and partial expiry: four arrivals over two keys with limit 1, two partial clock advances
@@ -329,6 +339,8 @@ def random_config(rng: random.Random) -> dict[str, Any]:
     keys = ["A"] + [rng.choice("AAB") for _ in range(n - 1)]
     cancels = sorted(rng.sample(range(n), rng.randint(0, 2)))
     cfg = {"keys": keys, "cancels": cancels, "expire": rng.random() < 0.6, "limit": rng.choice([1, 2]), "outcome": rng.choice(["value", "raise", "mixed"])}
+    if rng.random() < 0.3:
+        cfg["scoped"] = sorted(rng.sample(range(n), rng.randint(1, n)))
     if cfg["expire"]:
         cfg["ticks"] = rng.choice([0, 1, 2, 2])
         cfg["jump"] = rng.random() < 0.5
